@@ -57,6 +57,8 @@ _worker_id = None
 def private_mount(src, dst):
     """Give this process a private mount namespace with `src` bind-mounted at `dst`, so that
     every worker sees its sandbox at the same absolute path.  Returns True on success."""
+    if os.environ.get("VERIF_NO_NS"):
+        return False
     libc = ctypes.CDLL(None, use_errno=True)
     os.makedirs(src, exist_ok=True)
     os.makedirs(dst, exist_ok=True)
